@@ -834,9 +834,7 @@ func main() {
 	e.Extra["last_signature_negated_s_still_verifies"] = neg
 	e.dishonest(v, e.N(120, 1500))
 	e.malformed(v, e.N(60, 600))
-	if e.Thorough() {
-		e.cacheHistories(60)
-	}
+	e.cacheHistories(e.N(6, 60))
 	e.Finish()
 }
 
@@ -974,7 +972,7 @@ func (e *env) malformed(v compat.Verifier, count int) {
 	}
 }
 
-// cacheHistories (thorough): the same verifications with trust.Verifier.Cache set, as a history
+// cacheHistories: the same verifications with trust.Verifier.Cache set, as a history
 // sharing one cache; the statement does not depend on what was verified before.
 func (e *env) cacheHistories(count int) {
 	r := e.r
@@ -990,6 +988,21 @@ func (e *env) cacheHistories(count int) {
 				ts = ck.cert.NotAfter.Unix() - int64(r.Intn(2*86400))
 			} else {
 				ts = ck.cert.NotBefore.Unix() + int64(r.Intn(7200)) - 3600
+			}
+			if h%2 == 0 && step < 2 {
+				// directed: first a lifetime the certificate covers, then one it does not
+				exp = uint8(r.Intn(8))
+				d := int64(path.ExpTimeToDuration(exp)/time.Second) + 1
+				switch {
+				case ck.class == "short" && step == 0:
+					ts = ck.cert.NotAfter.Unix() - d - int64(r.Intn(3600))
+				case ck.class == "short":
+					ts = ck.cert.NotAfter.Unix() - d + 2 + int64(r.Intn(300))
+				case step == 0:
+					ts = ck.cert.NotBefore.Unix() + int64(r.Intn(3600))
+				default:
+					ts = ck.cert.NotBefore.Unix() - 1 - int64(r.Intn(3600))
+				}
 			}
 			n := 1 + r.Intn(3)
 			specs := e.honestSpecs(n, ts)
